@@ -68,3 +68,21 @@ Theorem C09_render_paragraph_escaped :
     = Ok ([60; 112; 62] ++ escape_html (text_of segs) ++ [60; 47; 112; 62; 10], env).
 Proof. exact render_para_esc. Qed.
 Print Assumptions C09_render_paragraph_escaped.
+
+(* the heading context: render("# " esc(t) LF) = <h1> escapeHtml(t) </h1> LF, for every text whose
+   escaped form starts with a letter, has no blank at either end and does not end in '#' *)
+From MD Require Import Lemmas.HeadLine.
+Theorem C09_render_heading_escaped :
+  forall cfg reformat casefold linktext segs, wf segs -> head_ok (src_of segs) ->
+    mem_z 13 (src_of segs) = false -> mem_z 0 (src_of segs) = false ->
+  forall bpre bpost, c_rules (p_block cfg) = bpre ++ nm_heading :: bpost ->
+    Forall (fun n => str_eqb n nm_heading = false /\ str_eqb n nm_paragraph = false /\ str_eqb n nm_lheading = false) bpre ->
+    0 < c_maxNesting (p_block cfg) -> p_core cfg = [n_normalize; n_block; n_inline; n_text_join] ->
+  forall ipre ipost, ic_rules (p_inline cfg) = ipre ++ n_escape :: ipost ->
+    Forall (fun n => n = n_text \/ n = n_linkify \/ n = n_newline) ipre -> In n_text ipre ->
+    ic_linkify (p_inline cfg) = false -> 0 < ic_maxNesting (p_inline cfg) ->
+  forall env,
+    render_md cfg reformat casefold linktext ((35 :: 32 :: src_of segs) ++ [10]) env
+    = Ok ([60; 104; 49; 62] ++ escape_html (text_of segs) ++ [60; 47; 104; 49; 62; 10], env).
+Proof. exact render_heading_esc. Qed.
+Print Assumptions C09_render_heading_escaped.
